@@ -16,7 +16,7 @@ func init() {
 	register(&Property{
 		ID:          "C12",
 		Technique:   "static analysis: ORDER rules over the byte-buffer key encoders (a variable-length segment is copied only after its own length prefix), shape and constant checks on the stop-key constructors, argument agreement of range-bound pairs, exhaustiveness of complementary deletion guards by truth table, expression shape of the integer codec, case-set agreement between the tuple codec's encoder and decoder",
-		Explanation: "Decides structural conditions of key isolation: (K1) in every raw key encoder of package rockredis that fills a buffer through a cursor, each variable-length segment that is not the trailing one is preceded by a 2-byte length field of that same segment (the table of non-KV types, the key of collection sub-keys, zset/list/bitmap keys); (K2) every stop key is 'start key with the last byte + 1' applied to a key whose last byte is the constant separator (the start encoder is called with an empty trailing segment), the separators are constants below 0xff and stop separator = start separator + 1; range deletions use both ends of one collection (shared with C09-N5); (K4) whole-table ranges are built from the same (type, table) on both ends; (K5) the order-preserving integer transform is x XOR signbit on both directions and the tuple codec decodes the flags it encodes; (K6) a collection clear deletes its elements on every size: the per-element and the range deletion guards are complementary. (K7) table isolation in key scans: the node-level SCAN/ADVSCAN commands cut a page at the first key whose extracted table differs (bytes.Equal) from the cursor's table and no table test in node/scan.go is a prefix comparison (same rule as C13-Q2). K5 also covers the float codec (sign bit SET for f >= 0, which includes -0.0; inverted for f < 0; the decoder clears/inverts under the matching test). K7 also requires that a name-derived prefix used in a bytes.HasPrefix test in package rockredis has the table separator appended (index build).",
+		Explanation: "Decides structural conditions of key isolation: (K1) in every raw key encoder of package rockredis that fills a buffer through a cursor, each variable-length segment that is not the trailing one is preceded by a 2-byte length field of that same segment (the table of non-KV types, the key of collection sub-keys, zset/list/bitmap keys); (K2) every stop key is 'start key with the last byte + 1' applied to a key whose last byte is the constant separator (the start encoder is called with an empty trailing segment), the separators are constants below 0xff and stop separator = start separator + 1; range deletions use both ends of one collection (shared with C09-N5); (K4) whole-table ranges are built from the same (type, table) on both ends; (K5) the order-preserving integer transform is x XOR signbit on both directions and the tuple codec decodes the flags it encodes; (K6) a collection clear deletes its elements on every size: the per-element and the range deletion guards are complementary. (K7) table isolation in key scans: the node-level SCAN/ADVSCAN commands cut a page at the first key whose extracted table differs (bytes.Equal) from the cursor's table and no table test in node/scan.go is a prefix comparison (same rule as C13-Q2). K5 also covers the float codec (sign bit SET for f >= 0, which includes -0.0; inverted for f < 0; the decoder clears/inverts under the matching test). K7 also requires that a name-derived prefix used in a bytes.HasPrefix test in package rockredis has the table separator appended (index build). (K9) in getTableMetaRange every store to the bound under construction is table name + separator, an extension of the bound or a reset, and such a store precedes each encoding on all paths; (K2, range pairs) a DeleteRange whose ends come from two different encoders that are not a start/stop pair is reported.",
 		NotDecided:  "EncodeMemCmpKey/Decode round-trip and order preservation for bytes and floats (bytewise numeric reasoning), decoder bounds checks against corrupted stored keys, 2-byte length overflow (CheckKey limits), that table names contain no ':' for the KV type (relied upon; noted).",
 		Assumptions: []string{"the encoders are recognised by their idiom: buf[pos] = c, pos += n, binary.BigEndian.PutUint16(buf[pos:], uint16(len(x))), copy(buf[pos:], x)"},
 		Run:         runC12,
@@ -245,15 +245,17 @@ func atoi(s string) int {
 	return n
 }
 
-// projectOn keeps only the atoms that mention the term; other atoms are replaced by true under an
+// projectOn keeps only the atoms that mention the term (or one of the terms separated by |); other atoms are replaced by true under an
 // even number of negations and false under an odd number (an over-approximation of the formula).
 func projectOn(f *flow.F, term string) *flow.F {
 	var rec func(f *flow.F, pos bool) *flow.F
 	rec = func(f *flow.F, pos bool) *flow.F {
 		switch f.Op {
 		case flow.OpAtom:
-			if strings.Contains(f.Key, term) {
-				return f
+			for _, t := range strings.Split(term, "|") {
+				if strings.Contains(f.Key, t) {
+					return f
+				}
 			}
 			if pos {
 				return flow.True()
@@ -563,4 +565,54 @@ func c12K8(c *Ctx) {
 func init() {
 	old := registry["C12"].Run
 	registry["C12"].Run = func(c *Ctx) { old(c); c12K8(c) }
+}
+
+// K9: the bounds of a table's meta range both start with the table name *and its separator*: `tbl:` … `tbl;`. A lower
+// bound built from the bare name `tbl` also covers the tables whose name extends it with a byte below the separator
+// (`tbl0`, `tbl-2`), and deleting the range of one table deletes theirs.
+func c12K9(c *Ctx) {
+	r := c.R
+	r.Clause("C12-K9", "both bounds of a table's meta range carry the table separator")
+	u := c.unit("C12-K9", "rockredis.getTableMetaRange")
+	if u == nil {
+		return
+	}
+	n := 0
+	sep := atoi(c.W.Const("rockredis.tableStartSep"))
+	withSep := func(t string) bool {
+		for _, pre := range []string{"append(p1, rockredis.tableStartSep", "append(p1, (rockredis.tableStartSep", "rockredis.packRedisKey(p1, ",
+			fmt.Sprintf("append(p1, %d)", sep), fmt.Sprintf("append(p1, %d)", sep+1)} {
+			if sep > 0 && strings.HasPrefix(t, pre) {
+				return true
+			}
+		}
+		return false
+	}
+	for _, s := range u.Match(an.LocalStore("tableStart")) {
+		if s.RHS == nil {
+			continue
+		}
+		n++
+		t := u.C.Term(s.RHS)
+		ok := withSep(t) || strings.HasPrefix(t, "append(tableStart, ") || t == "tableStart[:0]"
+		r.Check("C12-K9", u.Name+": the bound is the table name followed by its separator (then extended, or reset)", u.Pos(s.Pos), ok, "tableStart = "+t)
+	}
+	r.Min("C12-K9", n, 4, "stores to the bound under construction")
+	enc := u.Match(an.Call("rockredis.encodeScanKey"))
+	for _, s := range enc {
+		r.Check("C12-K9", u.Name+": the encoded bound is the one under construction", u.Pos(s.Pos), u.ArgTerm(s, 1) == "tableStart", "encodes "+u.ArgTerm(s, 1))
+		// and it was given the separator since the last reset: a separator store precedes on every path
+		r.OrderSites("C12-K9", u, []*an.Site{s}, nil, []an.M{an.LocalStore("tableStart").Where("name + separator", func(u *an.Unit, d *an.Site) bool {
+			if d.RHS == nil {
+				return false
+			}
+			return withSep(u.C.Term(d.RHS))
+		})}, an.OrderOpts{})
+	}
+	r.Min("C12-K9", len(enc), 2, "encoded bounds")
+}
+
+func init() {
+	old := registry["C12"].Run
+	registry["C12"].Run = func(c *Ctx) { old(c); c12K9(c) }
 }
